@@ -1,0 +1,90 @@
+//! Verification hooks. Only compiled with `--cfg mrecordlog_verif`; they record what the
+//! library does to the file system (in program order) and can inject I/O failures into the
+//! calls recovery makes. They never change behaviour unless a fault plan is armed.
+use std::cell::RefCell;
+use std::io;
+
+#[derive(Clone, Debug, PartialEq, Eq)]
+pub enum Event {
+    ListDir,
+    Create(u64),
+    SetLen(u64, u64),
+    OpenFile(u64),
+    ReadBlock(u64),
+    Seek(u64, u64),
+    /// Bytes handed to the `BufWriter` of file `file` at in-file offset `off`.
+    Write { file: u64, off: u64, data: Vec<u8> },
+    Flush,
+    FsyncFile(u64),
+    FsyncDir,
+    Unlink(u64),
+    /// GC wrote the position of this (empty) queue.
+    GcRecordPosition(String),
+}
+
+#[derive(Clone, Copy, Debug)]
+pub struct FaultPlan {
+    /// index (0-based) of the first failing list/open/read call
+    pub fail_at: u64,
+    /// fail every call from `fail_at` on (persistent) or only that one (transient)
+    pub forever: bool,
+    pub kind: io::ErrorKind,
+}
+
+thread_local! {
+    static LOG: RefCell<Vec<Event>> = const { RefCell::new(Vec::new()) };
+    static ENABLED: RefCell<bool> = const { RefCell::new(false) };
+    static FAULT: RefCell<Option<FaultPlan>> = const { RefCell::new(None) };
+    static IO_CALLS: RefCell<u64> = const { RefCell::new(0) };
+}
+
+pub fn set_enabled(enabled: bool) {
+    ENABLED.with(|e| *e.borrow_mut() = enabled);
+}
+
+pub fn record(event: Event) {
+    if ENABLED.with(|e| *e.borrow()) {
+        LOG.with(|log| log.borrow_mut().push(event));
+    }
+}
+
+pub fn record_write(file: u64, off: u64, data: &[u8]) {
+    if ENABLED.with(|e| *e.borrow()) {
+        LOG.with(|log| {
+            log.borrow_mut().push(Event::Write {
+                file,
+                off,
+                data: data.to_vec(),
+            })
+        });
+    }
+}
+
+pub fn take_events() -> Vec<Event> {
+    LOG.with(|log| std::mem::take(&mut *log.borrow_mut()))
+}
+
+pub fn set_fault_plan(plan: Option<FaultPlan>) {
+    FAULT.with(|f| *f.borrow_mut() = plan);
+    IO_CALLS.with(|c| *c.borrow_mut() = 0);
+}
+
+pub fn io_calls_made() -> u64 {
+    IO_CALLS.with(|c| *c.borrow())
+}
+
+/// Called before every directory listing, file open and block read of the read path.
+pub fn io_call() -> io::Result<()> {
+    let idx = IO_CALLS.with(|c| {
+        let mut c = c.borrow_mut();
+        let idx = *c;
+        *c += 1;
+        idx
+    });
+    if let Some(plan) = FAULT.with(|f| *f.borrow()) {
+        if idx == plan.fail_at || (plan.forever && idx > plan.fail_at) {
+            return Err(io::Error::new(plan.kind, "injected fault"));
+        }
+    }
+    Ok(())
+}
